@@ -267,9 +267,10 @@ def ser(n, tns_prefix='p', default_ns=False, _root=True, _indef=None, pretty=Fal
     another namespace - inner namespace scopes that differ from the root's."""
     ns = n['ns']
     decl = ''
-    if switch_paths and not _root and ns and not default_ns and _path in switch_paths and tns_prefix == 'p':
-        tns_prefix = 'q'
-        decl = ' xmlns:q="%s" xmlns:p="urn:rebound"' % ns
+    if switch_paths and not _root and ns and not default_ns and _path in switch_paths and tns_prefix in 'pqr':
+        old = tns_prefix
+        tns_prefix = {'p': 'q', 'q': 'r', 'r': 's'}[old]       # nested scopes: p -> q -> r -> s
+        decl = ' xmlns:%s="%s" xmlns:%s="urn:rebound"' % (tns_prefix, ns, old)
     if _root:
         if ns and default_ns:
             decl = ' xmlns="%s"' % ns
